@@ -33,6 +33,11 @@ var callables = []callable{
 	{"sum", 0, true, "i", false},
 	{"joinv", 1, true, "sa", false},
 	{"hasPrefix", 2, false, "ss", false},
+	{"upper", 1, false, "s", false},
+	{"lower", 1, false, "s", false},
+	{"trimSpace", 1, false, "s", false},
+	{"html", 1, false, "s", false},
+	{"stage", 2, false, "is", false},
 	{"repeat", 2, false, "si", false},
 	{"replace", 4, false, "sssi", false},
 	{"ident", 1, false, "a", false},
@@ -74,10 +79,10 @@ func genForms(r *h.Rand) formSet {
 	}
 	note := "ok"
 	switch {
-	case c.fixed >= 0 && r.Chance(8) && n > 0:
+	case c.fixed >= 0 && r.Chance(12) && n > 0:
 		n-- // too few (or, for variadics with n > fixed, still fine)
 		note = "maybe-too-few"
-	case c.fixed >= 0 && !c.variadic && r.Chance(8):
+	case c.fixed >= 0 && !c.variadic && r.Chance(15):
 		n++
 		note = "too-many"
 	}
